@@ -21,7 +21,9 @@ package snowflake_client
 //
 // TestVerifC15ConnectLoop  runs the real Transport.Dial / connectLoop /
 //   SnowflakeConn.Close in real time: after Close has returned no further
-//   rendezvous attempt may start for longer than ReconnectTimeout.
+//   rendezvous attempt may start for longer than ReconnectTimeout, the Peers are
+//   melted and a held spare peer is closed - also when the smux session or the
+//   packet conn died by itself before the application's first Close.
 
 import (
 	"encoding/json"
@@ -446,16 +448,30 @@ type vc15LoopResult struct {
 	ObservedMs     int64  `json:"observed_ms"`
 	Note           string `json:"note,omitempty"`
 	// data-channel-never-opens scenario: the failed attempt was reported and a new one followed
-	Retried  bool     `json:"retried"`
-	Events   []string `json:"events"`
-	Contract []string `json:"contract,omitempty"`
+	Retried bool `json:"retried"`
+	// obligations right after the FIRST Close returned
+	MeltedAfterClose bool     `json:"melted_after_close"`
+	HasSpare         bool     `json:"has_spare"`        // a spare peer was held when Close was called
+	SpareClosed      bool     `json:"spare_closed"`     // ... and Close closed it
+	Killed           string   `json:"killed,omitempty"` // sess | pconn: the reliability layer died by itself before Close
+	SessionWasDead   bool     `json:"session_was_dead"` // smux session closed at the moment Close was called
+	Events           []string `json:"events"`
+	Contract         []string `json:"contract,omitempty"`
 }
 
 // vc15LoopScenario: Dial with a rendezvous that always fails, Close at the
 // chosen moment, Close again, then watch for rendezvous attempts for longer
 // than ReconnectTimeout.
-func vc15LoopScenario(name string, inFlight bool, max int, dcNever bool) (res vc15LoopResult) {
+//
+// kill = "sess" | "pconn": before the application's first Close the reliability
+// layer above Peers dies BY ITSELF (spec/Peers SessionDies), the way smux's
+// keep-alive does after KeepAliveTimeout without inbound data (it calls
+// Session.Close()) or the way a failing packet conn takes the session down;
+// the harness reaches the session / packet conn through the SnowflakeConn's
+// fields.  The obligations after Close are the same.
+func vc15LoopScenario(name string, inFlight bool, max int, dcNever bool, kill string) (res vc15LoopResult) {
 	res.Scenario = name
+	res.Killed = kill
 	rv := &vc15CountingRendezvous{answerFirst: dcNever}
 	if inFlight {
 		rv.gate = make(chan struct{})
@@ -472,9 +488,14 @@ func vc15LoopScenario(name string, inFlight bool, max int, dcNever bool) (res vc
 		res.Events = rec.snapshot()
 		res.Contract = rec.violations()
 	}()
-	conn, err := tr.Dial()
+	nc, err := tr.Dial()
 	if err != nil {
 		res.Note = "Dial: " + err.Error()
+		return
+	}
+	conn, isSC := nc.(*SnowflakeConn)
+	if !isSC {
+		res.Note = fmt.Sprintf("Dial: returned %T", nc)
 		return
 	}
 	// wait for the first attempt (dcNever: for the attempt after the one whose data channel never opened)
@@ -505,6 +526,26 @@ func vc15LoopScenario(name string, inFlight bool, max int, dcNever bool) (res vc
 	if !inFlight {
 		time.Sleep(300 * time.Millisecond) // let Collect return; the loop is now in its timer wait
 	}
+	// a spare peer the connection holds (the repository's own "End Closes all
+	// peers" test plants one the same way; under the lock because connectLoop runs)
+	var spare *WebRTCPeer
+	if !inFlight {
+		spare = &WebRTCPeer{closed: make(chan struct{})}
+		conn.snowflakes.collectLock.Lock()
+		conn.snowflakes.activePeers.PushBack(spare)
+		conn.snowflakes.collectLock.Unlock()
+		res.HasSpare = true
+	}
+	switch kill {
+	case "sess":
+		conn.sess.Close()
+	case "pconn":
+		conn.pconn.Close()
+		for t := time.Now(); time.Since(t) < 3*time.Second && !conn.sess.IsClosed(); {
+			time.Sleep(5 * time.Millisecond)
+		}
+	}
+	res.SessionWasDead = conn.sess.IsClosed()
 	closed := make(chan string, 1)
 	t0 := time.Now()
 	go func() {
@@ -537,6 +578,12 @@ func vc15LoopScenario(name string, inFlight bool, max int, dcNever bool) (res vc
 	}
 	res.CloseMs = time.Since(t0).Milliseconds()
 	res.CallsAtClose = atomic.LoadInt32(&rv.calls)
+	select {
+	case <-conn.snowflakes.Melted():
+		res.MeltedAfterClose = true
+	default:
+	}
+	res.SpareClosed = spare != nil && spare.Closed()
 	// Close again
 	second := make(chan string, 1)
 	go func() {
@@ -572,17 +619,21 @@ func TestVerifC15ConnectLoop(t *testing.T) {
 		inFlight bool
 		max      int
 		dcNever  bool
+		kill     string
 	}
-	scs := []sc{{"close-during-timer-wait/max1", false, 1, false}, {"close-during-rendezvous/max1", true, 1, false},
-		{"close-during-timer-wait/max2", false, 2, false}, {"close-during-rendezvous/max2", true, 2, false},
-		{"dc-never-opens-then-retry/max1", false, 1, true}}
+	scs := []sc{{"close-during-timer-wait/max1", false, 1, false, ""}, {"close-during-rendezvous/max1", true, 1, false, ""},
+		{"close-during-timer-wait/max2", false, 2, false, ""}, {"close-during-rendezvous/max2", true, 2, false, ""},
+		{"dc-never-opens-then-retry/max1", false, 1, true, ""},
+		{"close-after-session-died/max2", false, 2, false, "sess"}, {"close-after-session-died/max1", false, 1, false, "sess"},
+		{"close-after-pconn-died/max2", false, 2, false, "pconn"},
+		{"close-during-rendezvous-after-session-died/max1", true, 1, false, "sess"}}
 	results := make([]vc15LoopResult, len(scs))
 	var wg sync.WaitGroup
 	for i := range scs {
 		wg.Add(1)
 		go func(i int) {
 			defer wg.Done()
-			results[i] = vc15LoopScenario(scs[i].name, scs[i].inFlight, scs[i].max, scs[i].dcNever)
+			results[i] = vc15LoopScenario(scs[i].name, scs[i].inFlight, scs[i].max, scs[i].dcNever, scs[i].kill)
 		}(i)
 	}
 	wg.Wait()
